@@ -18,6 +18,10 @@ Lemma prog_is_expected :
   forallb init_known ctor_prog = true /\ In InitStorageSize ctor_prog /\ In InitEndSize ctor_prog.
 Proof. repeat split; try reflexivity; simpl; tauto. Qed.
 
+(* WaitSemaphore retries after EINTR (regenerated from the source like the programs) *)
+Lemma wait_is_expected : wait_on_eintr = EintrRetry.
+Proof. reflexivity. Qed.
+
 (* ------------------------------------------------------------------------------------------- *)
 (* step characterisation *)
 Lemma pstep_spec : forall s i s', pstep s i = Some s' ->
@@ -693,4 +697,27 @@ Proof.
       * rewrite (skipn_nth' _ (map snd (hist s)) (length (loaded s)) 0) by (rewrite map_length; lia).
         f_equal. rewrite Hlen, G0, DR by lia. apply (map_nth snd (hist s) (0, 0) (ca s)).
       * rewrite filter_app, map_app. simpl. rewrite Nat.eqb_refl. reflexivity.
+Qed.
+
+(* ------------------------------------------------------------------------------------------- *)
+(* signals: an interrupted wait is retried, so a signal never changes the state of the queue, and every run with signals *)
+(* is a run without them                                                                                                 *)
+Lemma interrupt_noop : forall s t s', interrupt s t = Some s' -> s' = s.
+Proof.
+  intros s t s' H. unfold interrupt in H. rewrite wait_is_expected in H.
+  destruct (parked s t); injection H as <-; reflexivity.
+Qed.
+Lemma interrupt_total : forall s t, interrupt s t = Some s.
+Proof. intros s t. unfold interrupt. rewrite wait_is_expected. destruct (parked s t); reflexivity. Qed.
+
+Lemma run_i_none : forall sched, fold_left (fun o e => match o with Some x => step_i x e | None => None end) sched None = None.
+Proof. induction sched; simpl; auto. Qed.
+Theorem run_i_is_run : forall sched s s', run_i sched s = Some s' -> run (runs_of sched) s = Some s'.
+Proof.
+  induction sched as [|e sched IH]; intros s s' H; unfold run_i in H; simpl in H.
+  - exact H.
+  - destruct e as [t|t]; simpl in *.
+    + unfold run. simpl. destruct (step s t) as [s1|] eqn:E; [|rewrite run_i_none in H; discriminate].
+      apply IH. exact H.
+    + rewrite interrupt_total in H. apply IH. exact H.
 Qed.
